@@ -2107,12 +2107,20 @@ class TypeBlocks(ContainerOperand):
             return TypeBlocks.from_blocks(b[row_key, column])
 
         # pass a generator to from_block; will return a TypeBlocks or a single element
-        return self.from_blocks(
+        extracted = self.from_blocks(
                 self._slice_blocks(
                         row_key=row_key,
                         column_key=column_key),
                 shape_reference=self._shape
                 )
+        if (row_key is not None
+                and extracted.__class__ is TypeBlocks
+                and extracted._shape[1] == 0):
+            # no columns selected: the row count of the shape reference must follow the row selection
+            rows = np.arange(self._shape[0])[row_key]
+            return self.from_zero_size_shape(
+                    (1 if rows.ndim == 0 else len(rows), 0))
+        return extracted
 
     def _extract_iloc(self,
             key: GetItemKeyTypeCompound
